@@ -16,15 +16,18 @@ from transactron.utils.dependencies import DependencyContext, DependencyManager 
 ID = "C13"
 ENGINE = "A"
 RULE = (
-    "case = 1-2 Connect instances (forward / reverse layouts of 0-3 bits), each with 1-2 writer and 1-3 reader "
-    "transactions that additionally call 0-2 methods with ready inputs (writers and readers draw them from disjoint "
-    "pools, because a shared exclusive callee is rightly rejected as unsatisfiable simultaneity), optionally a middle "
-    "transaction reading Connect 0 and writing Connect 1 (transitivity), optionally a pair of user methods related by "
-    "simultaneous(); all valuations of the ready inputs are enumerated (data values are a fixed function of the "
-    "valuation index); oracle = read.run == write.run for every Connect and a.run == b.run for the explicit pair; when "
-    "they run the reader's result is the active writer's argument and the writer's result the active reader's "
-    "argument, also across the chained middle transaction; non-trivial = a valuation where one side's caller is fully "
-    "enabled and the other side has no enabled caller"
+    "case = a topology of Connect instances (forward / reverse layouts of 0-3 bits): 'plain' = 1-2 independent Connects "
+    "with 1-2 writer and 1-3 reader transactions each; 'chain' = 2-4 Connects in series linked by middle transactions "
+    "that read one Connect and write the next (transitivity, up to 5 transactions in one simultaneity group); "
+    "'broadcast' = one transaction writing 2-4 Connects, each read by 1-2 readers.  Every caller additionally calls 0-2 "
+    "methods with ready inputs, drawn from a pool private to its role (a writer and a reader sharing an exclusive callee "
+    "is rightly rejected as unsatisfiable simultaneity).  Optionally a pair of user methods related by simultaneous().  "
+    "All valuations of the ready inputs are enumerated up to 2^10, else 1024 strided ones (data values are a fixed "
+    "function of the valuation index).  Oracle = read.run == write.run for every Connect, a.run == b.run for the pair, at "
+    "most one caller per side, a transfer only with an enabled caller on both sides; when they run, the reader's result "
+    "is the active writer's argument and the writer's result the active reader's argument, end to end across a chain; "
+    "all Connects of a chain / broadcast transfer in exactly the same cycles; non-trivial = a valuation where one side has "
+    "an enabled caller and the other has none, and a transfer in another valuation"
 )
 ASSUMPTIONS = ["amaranth.sim.Simulator is the trusted execution model"]
 TECHNIQUE = "generated Connect/simultaneous() topologies + exhaustive ready valuations against run-equality and data-exchange predicates"
@@ -34,39 +37,66 @@ def budget(tier):
     return dict(examples=25, seconds=45) if tier == "quick" else dict(examples=300, seconds=420)
 
 
+def _extras(draw, n=2):
+    return sorted(draw(st.sets(st.integers(0, 1), max_size=n)))
+
+
 @st.composite
 def strategy(draw, tier="quick"):
-    nconn = draw(st.integers(1, 2))
-    chain = nconn == 2 and draw(st.booleans())
+    mode = draw(st.sampled_from(["plain", "plain", "chain", "broadcast"]))
+    nconn = draw(st.integers(1, 2)) if mode == "plain" else draw(st.integers(2, 4))
+    fw, rw = draw(st.integers(0, 3)), draw(st.integers(0, 3))
     conns = []
     for k in range(nconn):
         nw = draw(st.integers(1, 2))
-        nr = draw(st.integers(1, 2 if nconn == 2 else 3))
-        conns.append(
-            dict(
-                fw=draw(st.integers(0, 3)),
-                rw=draw(st.integers(0, 3)),
-                writers=[sorted(draw(st.sets(st.integers(0, 1), max_size=2))) for _ in range(nw)],
-                readers=[sorted(draw(st.sets(st.integers(0, 1), max_size=2))) for _ in range(nr)],
-                wrdy=[draw(st.booleans()) for _ in range(nw)],
-                rrdy=[draw(st.booleans()) for _ in range(nr)],
-            )
+        nr = draw(st.integers(1, 3 if nconn == 1 else 2))
+        c = dict(
+            fw=fw if mode != "plain" else draw(st.integers(0, 3)),
+            rw=rw if mode != "plain" else draw(st.integers(0, 3)),
+            writers=[_extras(draw) for _ in range(nw)],
+            readers=[_extras(draw) for _ in range(nr)],
+            wrdy=[draw(st.booleans()) for _ in range(nw)],
+            rrdy=[draw(st.booleans()) for _ in range(nr)],
         )
-    if chain:
-        # the middle transaction forwards data: layouts must agree
-        conns[1]["fw"] = conns[0]["fw"]
-        conns[1]["rw"] = conns[0]["rw"]
+        if mode == "chain":
+            if k > 0:
+                c["writers"], c["wrdy"] = [], []
+            if k < nconn - 1:
+                c["readers"], c["rrdy"] = [], []
+        if mode == "broadcast":
+            c["writers"], c["wrdy"] = [], []
+        conns.append(c)
     pair = draw(st.integers(0, 2)) == 0
-    return dict(conns=conns, chain=chain, mid=sorted(draw(st.sets(st.integers(0, 1), max_size=1))) if chain else [],
-                pair=pair, pair_calls=[sorted(draw(st.sets(st.integers(0, 1), max_size=1))) for _ in range(2)] if pair else [])
+    return dict(
+        mode=mode,
+        conns=conns,
+        mids=[_extras(draw, 1) for _ in range(nconn - 1)] if mode == "chain" else [],
+        bw=_extras(draw, 1) if mode == "broadcast" else [],
+        pair=pair,
+        pair_calls=[_extras(draw, 1) for _ in range(2)] if pair else [],
+    )
+
+
+def callers(sp, k, side):
+    """[(transaction name, extra callees, pool role, has ready input)] of one side of Connect k"""
+    mode = sp["mode"]
+    if mode == "chain" and side == "w" and k > 0:
+        return [(f"mid{k - 1}", sp["mids"][k - 1], f"MID{k - 1}", True)]
+    if mode == "chain" and side == "r" and k < len(sp["conns"]) - 1:
+        return [(f"mid{k}", sp["mids"][k], f"MID{k}", True)]
+    if mode == "broadcast" and side == "w":
+        return [("bw", sp["bw"], "BW", True)]
+    c = sp["conns"][k]
+    lst = c["writers"] if side == "w" else c["readers"]
+    flags = c["wrdy"] if side == "w" else c["rrdy"]
+    return [(f"{side}{k}_{i}", extra, f"{side.upper()}{k}", flags[i]) for i, extra in enumerate(lst)]
 
 
 class D(Elaboratable):
     def __init__(self, spec):
         self.spec = spec
-        self.ctrl = []  # control inputs (1 bit each)
-        self.pools = {}  # role -> [(Method, ready signal)]
-        self.trs = {}  # name -> Transaction
+        self.pools = {}  # role -> {index: (Method, ready signal)}
+        self.trs = {}
         self.rdy = {}
         self.arg = {}
         self.res = {}
@@ -74,22 +104,18 @@ class D(Elaboratable):
     def used(self):
         sp = self.spec
         u = set()
-        for k, c in enumerate(sp["conns"]):
-            if not (sp["chain"] and k == 1):
-                u |= {(f"W{k}", x) for e in c["writers"] for x in e}
-            if not (sp["chain"] and k == 0):
-                u |= {(f"R{k}", x) for e in c["readers"] for x in e}
-        u |= {("MID", x) for x in sp["mid"]}
+        for k in range(len(sp["conns"])):
+            for side in "wr":
+                for _, extra, role, _ in callers(sp, k, side):
+                    u |= {(role, x) for x in extra}
         if sp["pair"]:
             u |= {("PA", x) for x in sp["pair_calls"][0]} | {("PB", x) for x in sp["pair_calls"][1]}
         return sorted(u)
 
-    def pool(self, m, role):
-        return self.pools[role]
-
     def elaborate(self, platform):
         m = TModule()
         sp = self.spec
+        n = len(sp["conns"])
         self.conn = []
         for k, c in enumerate(sp["conns"]):
             con = Connect([("d", c["fw"])], [("r", c["rw"])])
@@ -102,44 +128,54 @@ class D(Elaboratable):
             with meth.body(m, ready=r):
                 pass
             self.pools.setdefault(role, {})[x] = (meth, r)
-        for k, c in enumerate(sp["conns"]):
+
+        def extras(role, lst):
+            for x in lst:
+                self.pools[role][x][0](m)
+
+        def endpoint(name, k, side, extra, role, has_rdy):
+            c = sp["conns"][k]
             con = self.conn[k]
-            for i, extra in enumerate(c["writers"]):
-                name = f"w{k}_{i}"
-                if sp["chain"] and k == 1:
-                    continue  # Connect 1 is written by the middle transaction only
-                t = Transaction(name=name)
-                self.trs[name] = t
-                self.rdy[name] = Signal(name=f"rdy_{name}")
-                self.arg[name] = Signal(c["fw"], name=f"arg_{name}")
-                self.res[name] = Signal(c["rw"], name=f"res_{name}")
-                with t.body(m, ready=self.rdy[name] if c["wrdy"][i] else C(1)):
+            t = Transaction(name=name)
+            self.trs[name] = t
+            self.rdy[name] = Signal(name=f"rdy_{name}")
+            aw, rw_ = (c["fw"], c["rw"]) if side == "w" else (c["rw"], c["fw"])
+            self.arg[name] = Signal(aw, name=f"arg_{name}")
+            self.res[name] = Signal(rw_, name=f"res_{name}")
+            with t.body(m, ready=self.rdy[name] if has_rdy else C(1)):
+                if side == "w":
                     m.d.top_comb += self.res[name].eq(con.write(m, d=self.arg[name]).r)
-                    for x in extra:
-                        self.pool(m, f"W{k}")[x][0](m)
-            for i, extra in enumerate(c["readers"]):
-                name = f"r{k}_{i}"
-                if sp["chain"] and k == 0:
-                    continue  # Connect 0 is read by the middle transaction only
+                else:
+                    m.d.top_comb += self.res[name].eq(con.read(m, r=self.arg[name]).d)
+                extras(role, extra)
+
+        for k in range(n):
+            for side in "wr":
+                for name, extra, role, has_rdy in callers(sp, k, side):
+                    if name.startswith(("mid", "bw")):
+                        continue
+                    endpoint(name, k, side, extra, role, has_rdy)
+        if sp["mode"] == "chain":
+            for i in range(n - 1):
+                name = f"mid{i}"
                 t = Transaction(name=name)
                 self.trs[name] = t
                 self.rdy[name] = Signal(name=f"rdy_{name}")
-                self.arg[name] = Signal(c["rw"], name=f"arg_{name}")
-                self.res[name] = Signal(c["fw"], name=f"res_{name}")
-                with t.body(m, ready=self.rdy[name] if c["rrdy"][i] else C(1)):
-                    m.d.top_comb += self.res[name].eq(con.read(m, r=self.arg[name]).d)
-                    for x in extra:
-                        self.pool(m, f"R{k}")[x][0](m)
-        if sp["chain"]:
-            t = Transaction(name="mid")
-            self.trs["mid"] = t
-            self.rdy["mid"] = Signal(name="rdy_mid")
-            with t.body(m, ready=self.rdy["mid"]):
-                back = Signal(sp["conns"][0]["rw"], name="mid_back")
-                fwd = self.conn[0].read(m, r=back).d
-                m.d.top_comb += back.eq(self.conn[1].write(m, d=fwd).r)
-                for x in sp["mid"]:
-                    self.pool(m, "MID")[x][0](m)
+                with t.body(m, ready=self.rdy[name]):
+                    back = Signal(sp["conns"][0]["rw"], name=f"mid_back{i}")
+                    fwd = self.conn[i].read(m, r=back).d
+                    m.d.top_comb += back.eq(self.conn[i + 1].write(m, d=fwd).r)
+                    extras(f"MID{i}", sp["mids"][i])
+        if sp["mode"] == "broadcast":
+            t = Transaction(name="bw")
+            self.trs["bw"] = t
+            self.rdy["bw"] = Signal(name="rdy_bw")
+            with t.body(m, ready=self.rdy["bw"]):
+                for k in range(n):
+                    self.arg[f"bw@{k}"] = Signal(sp["conns"][k]["fw"], name=f"arg_bw_{k}")
+                    self.res[f"bw@{k}"] = Signal(sp["conns"][k]["rw"], name=f"res_bw_{k}")
+                    m.d.top_comb += self.res[f"bw@{k}"].eq(self.conn[k].write(m, d=self.arg[f"bw@{k}"]).r)
+                extras("BW", sp["bw"])
         if sp["pair"]:
             self.pa = Method(name="pa")
             self.pb = Method(name="pb")
@@ -156,66 +192,60 @@ class D(Elaboratable):
                 self.rdy[nm_] = Signal(name=f"rdy_{nm_}")
                 with t.body(m, ready=self.rdy[nm_]):
                     meth(m)
-                    for x in calls:
-                        self.pool(m, role)[x][0](m)
+                    extras(role, calls)
         return m
 
 
 def run_case(spec) -> Result:
-    res = Result(labels=[f"connects{len(spec['conns'])}"] + (["chain"] if spec["chain"] else []) + (["simultaneous_pair"] if spec["pair"] else []))
+    sp = spec
+    n = len(sp["conns"])
+    res = Result(labels=[sp["mode"], f"connects{n}"] + (["simultaneous_pair"] if sp["pair"] else []))
     d = D(spec)
     dm = DependencyManager()
     with DependencyContext(dm):
         sim = Simulator(TransactronContextElaboratable(d, dependency_manager=dm))
     ctrl = list(d.rdy.items()) + [(f"x:{role}:{i}", r) for role, lst in sorted(d.pools.items()) for i, (_, r) in sorted(lst.items())]
-    names = [n for n, _ in ctrl]
     nb = len(ctrl)
     if nb > 10:
         res.labels.append("sampled_valuations")
+    group = 1 + (n if sp["mode"] == "broadcast" else (n + 1 if sp["mode"] == "chain" else 1))
+    res.labels.append(f"group_size>={min(group, 4)}")
     out = [None]
     st_ = dict(vals=0, xfer=0, onesided=0)
-    sp = spec
-
-    def callers(k, side):
-        if sp["chain"] and ((k == 0 and side == "r") or (k == 1 and side == "w")):
-            return [("mid", sp["mid"], "MID", True)]
-        c = sp["conns"][k]
-        lst = c["writers"] if side == "w" else c["readers"]
-        flags = c["wrdy"] if side == "w" else c["rrdy"]
-        return [(f"{side}{k}_{i}", extra, f"{side.upper()}{k}", flags[i]) for i, extra in enumerate(lst)]
 
     async def tb(ctx):
         total = 1 << nb
-        step = 1 if nb <= 10 else (total // 1024) | 1
-        for v in range(0, total, step):
+        stride = 1 if nb <= 10 else (total // 1024) | 1
+        for v in range(0, total, stride):
             val = {}
-            for i, (n, sg) in enumerate(ctrl):
-                val[n] = (v >> i) & 1
-                ctx.set(sg, val[n])
+            for i, (nm_, sg) in enumerate(ctrl):
+                val[nm_] = (v >> i) & 1
+                ctx.set(sg, val[nm_])
             args = {}
-            for j, (n, sg) in enumerate(sorted(d.arg.items())):
-                args[n] = (v * 7 + j * 3 + 1) % (1 << len(sg)) if len(sg) else 0
-                ctx.set(sg, args[n])
+            for j, (nm_, sg) in enumerate(sorted(d.arg.items())):
+                args[nm_] = (v * 7 + j * 3 + 1) % (1 << len(sg)) if len(sg) else 0
+                ctx.set(sg, args[nm_])
             st_["vals"] += 1
-            run = {n: ctx.get(t.run) for n, t in d.trs.items()}
+            run = {nm_: ctx.get(t.run) for nm_, t in d.trs.items()}
 
             def enabled(name, extra, role, has_rdy):
-                ok = val[f"rdy_{name}"] if False else (val[name] if (has_rdy or name in ("mid",)) else 1)
-                return bool(ok) and all(val[f"x:{role}:{x}"] for x in extra)
+                return bool(val[name] if has_rdy else 1) and all(val[f"x:{role}:{x}"] for x in extra)
 
+            mruns = []
             for k, con in enumerate(d.conn):
                 mw, mr = ctx.get(con.write.run), ctx.get(con.read.run)
+                mruns.append(mw)
                 if mw != mr:
                     out[0] = f"Connect {k}: write.run={mw} read.run={mr}; val={val}"
                     return
-                ws, rs = callers(k, "w"), callers(k, "r")
+                ws, rs = callers(sp, k, "w"), callers(sp, k, "r")
                 wrun = [c for c in ws if run[c[0]]]
                 rrun = [c for c in rs if run[c[0]]]
                 if len(wrun) > 1 or len(rrun) > 1:
                     out[0] = f"Connect {k}: more than one writer/reader runs; val={val}"
                     return
                 if mw != (len(wrun) == 1) or mr != (len(rrun) == 1):
-                    out[0] = f"Connect {k}: method run {mw}/{mr} but running callers {wrun}/{rrun}; val={val}"
+                    out[0] = f"Connect {k}: method run {mw}/{mr} but running callers {[c[0] for c in wrun]}/{[c[0] for c in rrun]}; val={val}"
                     return
                 wen = [c for c in ws if enabled(*c)]
                 ren = [c for c in rs if enabled(*c)]
@@ -227,18 +257,23 @@ def run_case(spec) -> Result:
                 if mw:
                     st_["xfer"] += 1
                     wn, rn = wrun[0][0], rrun[0][0]
-                    if not sp["chain"]:
+                    if sp["mode"] == "broadcast":
+                        wn = f"bw@{k}"
+                    if not wn.startswith("mid") and not rn.startswith("mid"):
                         if ctx.get(d.res[rn]) != args[wn]:
                             out[0] = f"Connect {k}: reader {rn} got {ctx.get(d.res[rn])}, writer {wn} passed {args[wn]}; val={val}"
                             return
                         if ctx.get(d.res[wn]) != args[rn]:
                             out[0] = f"Connect {k}: writer {wn} got {ctx.get(d.res[wn])}, reader {rn} passed {args[rn]}; val={val}"
                             return
-            if sp["chain"] and run["mid"]:
-                w = [n for n in run if n.startswith("w0_") and run[n]]
-                r = [n for n in run if n.startswith("r1_") and run[n]]
-                if len(w) != 1 or len(r) != 1:
-                    out[0] = f"chain: mid runs but writers {w} readers {r}; val={val}"
+            if sp["mode"] in ("chain", "broadcast") and len(set(mruns)) > 1:
+                out[0] = f"{sp['mode']}: the Connects do not transfer in the same cycle: {mruns}; val={val}"
+                return
+            if sp["mode"] == "chain" and mruns[0]:
+                w = [nm_ for nm_ in run if nm_.startswith("w0_") and run[nm_]]
+                r = [nm_ for nm_ in run if nm_.startswith(f"r{n - 1}_") and run[nm_]]
+                if len(w) != 1 or len(r) != 1 or not all(run[f"mid{i}"] for i in range(n - 1)):
+                    out[0] = f"chain transfers but running: {[k_ for k_, v_ in run.items() if v_]}; val={val}"
                     return
                 if ctx.get(d.res[r[0]]) != args[w[0]]:
                     out[0] = f"chain: reader {r[0]} got {ctx.get(d.res[r[0]])}, writer {w[0]} passed {args[w[0]]}"
